@@ -3,8 +3,14 @@ use indexmap::IndexSet;
 use snafu::OptionExt;
 use std::collections::hash_map::{Drain, Entry, HashMap};
 
+#[cfg(not(amiquip_verif))]
+type SlotMap<T> = HashMap<u16, T>;
+// verification builds: same map, fixed hasher (iteration order is a function of the history)
+#[cfg(amiquip_verif)]
+type SlotMap<T> = HashMap<u16, T, crate::verif::FixedState>;
+
 pub(crate) struct ChannelSlots<T> {
-    slots: HashMap<u16, T>,
+    slots: SlotMap<T>,
     freed_channel_ids: IndexSet<u16>,
     // u32 so that it can step past channel_max == u16::MAX without wrapping
     next_channel_id: u32,
@@ -14,7 +20,7 @@ pub(crate) struct ChannelSlots<T> {
 impl<T> ChannelSlots<T> {
     pub(crate) fn new() -> ChannelSlots<T> {
         ChannelSlots {
-            slots: HashMap::new(),
+            slots: SlotMap::default(),
             freed_channel_ids: IndexSet::new(),
             next_channel_id: 1,
             channel_max: 0,
